@@ -1467,6 +1467,15 @@ func (g *gen) behC03() M {
 		}
 		delete(run.AsM(sv), "nowait")
 	}
+	if g.chance(0.4) {
+		// messages that carry more than their fields: small ones (Sync, Flush, Close, Describe, Execute, CopyDone)
+		// with kilobytes of surplus, as long as the size limit allows
+		for _, sv := range steps {
+			if m := run.AsM(run.AsM(sv)["m"]); m != nil && g.chance(0.15) {
+				m["_pad"] = []int{1, 7, 100, 4000, 9999, 10001, 12000, 30000}[g.rng.Intn(8)]
+			}
+		}
+	}
 	if g.chance(0.35) {
 		// a message over the size limit, of a known or an unknown type, with the conversation going on behind it:
 		// skipped in full, wherever the segments happen to end
